@@ -1121,7 +1121,169 @@ def r8(cx):
     cx.floor(peek_validated, 1, 'words validated through the peeked token (simple_command)')
 
 
+# ---------------------------------------------------------------------------------------------------------------------
+# look-up side of the alias table (R9): every name the table can hold is looked up
+GLOSSARY = 'yash_env::alias::Glossary'
+ALIAS_ENTRY = 'yash_env::alias::HashEntry'
+TABLE_GET = [re.compile(r'^std::collections::hash::set::HashSet::<T, S(, A)?>::get$')]
+INNER_LOOK_UP = [GLOSSARY + '::look_up', re.compile(r' as yash_env::alias::Glossary>::look_up$')]
+TABLE_IS_EMPTY = [re.compile(r'^std::collections::hash::set::HashSet::<T, S(, A)?>::is_empty$'), GLOSSARY + '::is_empty',
+                  re.compile(r' as yash_env::alias::Glossary>::is_empty$')]
+TABLE_WRITE = re.compile(r'^std::collections::hash::set::HashSet::<T, S(, A)?>::(insert|replace|get_or_insert\w*)$')
+ENTRY_NEW = ['yash_env::alias::HashEntry::new']
+
+
+def _comes_from_param(body, du, o, n, depth=12):
+    """The operand is parameter n itself, seen through copies, reborrows (`&*name`) and Deref/as_str/as_ref only."""
+    p = Q.operand_place(o)
+    for _ in range(depth):
+        if p is None or any(e != '*' for e in (p.get('p') or [])):
+            return False
+        l = p['l']
+        defs = du.defs.get(l, [])
+        if not defs:
+            return l == n
+        if len(defs) != 1:
+            return False
+        b, j, node = defs[0]
+        if j == 't':
+            if not Q.callee_is(node, DEREFS) or not node['a']:
+                return False
+            p = Q.operand_place(node['a'][0])
+        elif node['k'] == 'assign' and node['rv']['k'] == 'use':
+            p = Q.operand_place(node['rv']['o'])
+        elif node['k'] == 'assign' and node['rv']['k'] == 'ref':
+            p = node['rv']['pl']
+        else:
+            return False
+    return False
+
+
+def _is_table_lookup(t):
+    if Q.callee_is(t, INNER_LOOK_UP):
+        return True
+    return Q.callee_is(t, TABLE_GET) and ALIAS_ENTRY in ((t.get('at') or [''])[0] or '')
+
+
+def _definition_side_name_tests(cx, F):
+    """Tests of the NAME that every insertion into the alias table is behind: {(callee path, bool the callee returned)}.
+    A test that is only applied under an option (`portable`) does not dominate the insertion and is therefore not in the set."""
+    writers = F.callers_of(lambda names, t: any(TABLE_WRITE.match(n) for n in names) and ALIAS_ENTRY in ((t.get('at') or [''])[0] or ''))
+    cx.require(writers, 'no insertion into the alias table (HashSet<HashEntry>::insert/replace) found: the definition side is not where it was')
+    common = None
+    for b0, blk0, t0 in writers:
+        body = F.inlined(b0)
+        du = Q.DefUse(body)
+        tests = None
+        known = False
+        for blk, t in body.calls():
+            if not (any(TABLE_WRITE.match(n) for n in (t['f'].get('def'), t['f'].get('decl')) if n) and ALIAS_ENTRY in ((t.get('at') or [''])[0] or '')):
+                continue
+            src = Q.value_source(body, du, t['a'][1]) if len(t['a']) > 1 else None
+            if src is None or not Q.callee_is(src, ENTRY_NEW):
+                continue
+            known = True
+            nm = _deep_name(body, du, src['a'][0])
+            here = set()
+            for org, lab, e in _conds_plus(F, body, du, blk):
+                if lab[0] == 'bool' and org['k'] == 'call' and nm and any(_deep_name(body, du, a) == nm for a in org['t']['a']):
+                    here.add((org['t']['f'].get('def') or org['t']['f'].get('decl'), lab[1]))
+            tests = here if tests is None else tests & here
+        tests = tests or set()
+        cx.fn(b0.root)
+        cx.site('%s inserts into the alias table at %s; tests of the name every insertion is behind: %s'
+                % (b0.root, b0.loc(t0), sorted(tests) if known else 'none (the entry is not built by HashEntry::new here)'))
+        common = tests if common is None else common & tests
+    return common or set(), len(writers)
+
+
+@RS.rule('C17.R9', 'K-SIBLING', 'every name the alias table can hold is looked up: an implementation of Glossary::look_up consults the table '
+         'under the very name it was given, on every path, and applies no test of the name that the insertions are not all behind')
+def r9(cx):
+    F = cx.F
+    impls = [im for im in F.impls if im.get('trait_def') == GLOSSARY]
+    cx.require(impls, 'no implementation of yash_env::alias::Glossary')
+    defined_behind, nwriters = _definition_side_name_tests(cx, F)
+    impl_fns = {it['def'] for im in impls for it in im['items']}
+    n = consulted = 0
+    for im in impls:
+        items = {it['name']: it['def'] for it in im['items']}
+        fn = items.get('look_up')
+        cx.require(fn is not None and fn in F.bodies, 'impl Glossary for %s has no look_up body' % im['self'])
+        b0 = F.body(fn)
+
+        def accept(callee, b0=b0):
+            sig = F.fns.get(callee)
+            cb = F.bodies.get(callee)
+            return sig is not None and sig.get('vis') != 'pub' and cb is not None and cb.file == b0.file and callee not in impl_fns
+        body = F.inlined(b0, accept)
+        cx.fn(fn)
+        cx.require(body.argc == 2, '%s is not look_up(&self, name)' % fn)
+        du = Q.DefUse(body)
+        n += 1
+        lookups = [(b, t) for b, t in body.calls() if _is_table_lookup(t)]
+        if not lookups:
+            # a glossary without a table: it must say it is empty (Parser::substitute_alias then never asks, R1)
+            ie = F.bodies.get(items.get('is_empty') or '')
+            rets = [s for _, _, s in ie.stmts() if s['k'] == 'assign' and s['lhs']['l'] == 0 and not s['lhs'].get('p')] if ie is not None else []
+            always_empty = bool(rets) and all(s['rv']['k'] == 'use' and str(s['rv']['o'].get('c')) in ('true', 'const true') for s in rets)
+            cx.site('%s: no table behind it; is_empty() is constantly true: %s' % (fn, always_empty))
+            if not always_empty:
+                cx.violation(fn, 'table-not-consulted', 'look_up answers without consulting an alias table although the glossary does not '
+                             'declare itself empty: defined aliases are never substituted', loc=body.loc(body.d))
+            continue
+        consulted += 1
+        lblocks = {b for b, _ in lookups}
+        # (1) the key is the name itself
+        for b, t in lookups:
+            same = len(t['a']) == 2 and _comes_from_param(body, du, t['a'][1], 2)
+            cx.site('%s: table consulted by %s at %s under the name it was given: %s' % (fn, pp.callee(t).split('::')[-1], body.loc(t), same))
+            if not same:
+                cx.violation(fn, 'looked-up-under-another-name', 'the table is consulted under something else than the name look_up was given '
+                             '(a transformed or different string): an alias is found for a word that does not name it, or not found for '
+                             'the word that does', loc=body.loc(t))
+        # (2) no test of the name decides whether the table is consulted
+        tainted = Q.forward_taint(body, {2}, stop_calls=TABLE_GET + INNER_LOOK_UP)
+        refusing = set()
+        for u in sorted(body.live_blocks()):
+            t = body.term(u)
+            if t['k'] != 'switch' or Q.operand_local(t['d']) not in tainted:
+                continue
+            ec = Q.edge_condition(F, body, du, u)
+            org, labels = ec
+            what = pp.callee(org['t']) if org['k'] == 'call' else 'a value computed from the name'
+            for v, labs in labels.items():
+                if lblocks & set(body.reachable(v, removed={u})) or v in lblocks:
+                    continue
+                refusing.add((u, v))
+                ok = org['k'] == 'call' and labs and all(
+                    lab[0] == 'bool' and ((org['t']['f'].get('def') or org['t']['f'].get('decl')), not lab[1]) in defined_behind for lab in labs)
+                cx.site('%s: refuses without consulting the table when %s is %s; every insertion is behind the same test: %s'
+                        % (fn, what, '/'.join(str(l[-1]) for l in labs), ok))
+                if not ok:
+                    cx.violation(fn, 'name-filter-before-table:%s' % what.split('::')[-1], 'look_up answers "no such alias" from a test of the '
+                                 'name itself (%s) without consulting the table, but the alias built-in does not put every definition behind '
+                                 'that test (`is_portable_alias_name` is enforced only under the `portable` option): an alias such as `..`, '
+                                 '`a.b` or `ls+` can be defined and listed but is never substituted, and a blank at the end of its value no '
+                                 'longer makes the next word eligible' % what, loc=body.loc(t))
+        # (3) no other way round the table (a test that the table is empty is the only reviewed shortcut)
+        shortcut = {(u, v) for u, v, lab, org in _switch_edges(F, body, du, lambda org, lab: lab == ('bool', True) and org['k'] == 'call' and
+                                                                Q.callee_is(org['t'], TABLE_IS_EMPTY))}
+        p = Q.must_pass(body, [0], lblocks, removed_edges=shortcut | refusing)
+        if p:
+            cx.violation(fn, 'table-bypassed', 'look_up can return without having consulted the alias table (and not because the table is '
+                         'empty): defined aliases are not substituted on that path', loc=body.loc(body.term(p[-1])), path=Q.render_path(body, p))
+        # (4) what is returned is what the table answered
+        answered = Q.forward_taint(body, {t['dest']['l'] for _, t in lookups})
+        if 0 not in answered:
+            cx.violation(fn, 'answer-not-from-table', 'the value look_up returns does not depend on what the table answered', loc=body.loc(body.d))
+    cx.floor(n, 6, 'implementations of Glossary::look_up')
+    cx.floor(consulted, 5, 'implementations of Glossary::look_up that consult a table or an inner glossary')
+    cx.floor(nwriters, 1, 'insertions into the alias table')
+
+
 # --- explanation addendum (generated catalogue in DESIGN.md reads RS.explanation)
 RS.explanation += ' Added later: substitute_alias refuses a substitution only through the reviewed tests (R1c); alias identity is answered by Source::is_alias_for only (R4b); line breaks are skipped again in every alias-retry loop that skipped them before the first attempt (R5b).'
 RS.explanation += ' Wave 3: a production returns Rec::AliasSubstituted only on paths where no token has been consumed and kept, unless an emptiness test of the accumulator that every consumed piece is pushed into dominates the return (R7); every Token.word moved into the syntax tree is behind a switch on the id of that very token, or of the peeked token that take_token_raw / take_token_manual=>Parsed is bound to return, never take_token_auto (R8).'
 RS.explanation += ' R8 also accepts the test of the peeked id when its verdict is materialised in a bool (`let ok = match id {..}; if !ok { break }`): paths are followed with the constant last assigned to that bool.'
+RS.explanation += ' R9 (sibling of the alias built-in): every implementation of Glossary::look_up consults the table (HashSet::get / inner look_up) under the unmodified name on every path except an is_empty shortcut, returns what the table answered, and refuses on a test of the name only if every insertion into the table (alias built-in define) is dominated by the same test - a test applied only under the portable option does not qualify.'
